@@ -4,7 +4,7 @@ CONFIG = {
     "areas": ["stateres"],
     "lean": ["VProps.C10"],
     "sources": ["VProps/C10.lean", "VModel/StateRes.lean", "VModel/Auth.lean", "VModel/Event.lean"],
-    "theorems": [],
+    "theorems": ["V.C10.stateres_column_eq_spec", "V.C10.entrypoint_selects"],
     "rule": "room-history generator: simulated servers build a DAG (create, joins/leaves/invites/bans/kicks, power-level changes incl. "
             "demotions, join-rule changes, other state) with up to 4 forks, equal timestamps, mostly auth-valid events plus some rejected ones; "
             "2-4 state sets at branch tips; versions 1, 2-11 sample, 12/hydra; full auth closure as auth events (one per key for version 1); "
